@@ -226,7 +226,7 @@ SUBST = ['fragment', 'rule', 'reactant', 'labeled', 'single', 'double', 'bond to
          'ring', 'has', 'radical electrons', 'with', 'bond', '{', '}', '(', ')', ',', '!', '>=', '<', '=', '1', '0', '12', 'C', 'c', 'H', '$',
          '&', 'X', '+', '-', '.', ':', '?', '*', 'any atom', 'heavy atom', 'group', 'constraints{', 'duplicates', '=>', 'form', 'break',
          'increase bond order', 'modify atomtype', 'positive', 'olefinic', 'cyclic', 'aromatic', 'allylic', 'stereo double bond', 'cis',
-         'to', 'for double bond between', 'and', 'AtomLabel', 'Symbols', '||', '&&', '', ' ', '\n', 'é', 'Xe', 'Cl']
+         'to', 'for double bond between', 'and', 'AtomLabel', 'Symbols', '||', '&&', '', ' ', '\n', 'é', 'Xe', 'Cl', '²', '①', '٣']
 
 
 @st.composite
@@ -307,7 +307,10 @@ def enum_fixed(tier):
               'fragment a{C labeled', 'fragment a{C labeled c1', 'fragment a{C labeled c1}', 'rule r{', 'rule r{}', 'rule r{reactant',
               'fragment a{C labeled c1} garbage', 'fragment a{C labeled c1}}', 'fragment a{C labeled c1} fragment b{C labeled c1}',
               'x', '{', '}', '$', 'C', '0', 'é', 'fragment é{C labeled c1}', 'fragment a{C labeled é}', 'fragment a{C labeled ١}',
-              'fragment a{C labeled c1 {in ring of size ٣}}', 'fragment a{C labeled c1 {connected to >١ C}}', 'fragment a{C labeled c1 {in ring of size 12}}']:
+              'fragment a{C labeled c1 {in ring of size ٣}}', 'fragment a{C labeled c1 {connected to >١ C}}',
+              # characters that count as digits without being decimal digits (superscripts, circled numbers)
+              'fragment a{C labeled c1 {in ring of size ²}}', 'fragment a{C labeled c1 {connected to ²C}}', 'fragment a{C labeled c1 {in ①ring}}',
+              'fragment a{C labeled c1 {has >=³ radical electrons}}', 'fragment a{C labeled c1 {connected to 1² C}}', 'fragment a{C labeled c1 {in ring of size 12}}']:
         yield dict(kind='edge', text=t)
     # prefixes of the fixed texts too (the generated ones get theirs in the prefix family)
     for t in LABEL_CASES[:6] + UNSUPPORTED[:4] + STEREO_TEXTS:
@@ -315,7 +318,7 @@ def enum_fixed(tier):
 
 
 def random_text():
-    alpha = st.sampled_from(list('abcCHOXlfr{}()!,.:+-?*$&<>=0123456789 \n\t_') + ['fragment', 'labeled', ' bond to ', 'rule', 'reactant', 'é', 'ß', '١', '𝔸'])
+    alpha = st.sampled_from(list('abcCHOXlfr{}()!,.:+-?*$&<>=0123456789 \n\t_') + ['fragment', 'labeled', ' bond to ', 'rule', 'reactant', 'é', 'ß', '١', '𝔸', '²', '①'])
     return st.one_of(st.text(alphabet=st.characters(min_codepoint=32, max_codepoint=126), max_size=60),
                      st.lists(alpha, max_size=40).map(''.join), st.text(max_size=30),
                      st.sampled_from(['', ' ', '\n\n', '\t']))
